@@ -276,3 +276,59 @@ func ruleRestoreReconcile() *Rule {
 		},
 	}
 }
+
+// rulePartialReset: C10/C11 PARTIAL-RESET.
+//
+// A partially received snapshot (r.snapshot) belongs to the leader and term it is being received from. The handler
+// itself only discards it when a LARGER label arrives (known finding D10), so what keeps the bytes of two different
+// snapshots from being mixed in one file across a leader change is that every move to the follower role (which is what
+// a new term or a new leader causes) drops the partial file, unconditionally — also when the node was not a leader.
+func rulePartialReset() *Rule {
+	const id = "PARTIAL-RESET"
+	return &Rule{
+		ID: id,
+		Text: "Every activation of becomeFollower ends with r.snapshot == nil (the partially received snapshot is discarded on every term/leader change, whatever the role was): " +
+			"a new leader's chunks must never extend the partial file of its predecessor's snapshot.",
+		Floor: 3,
+		Run: func(p *Program) []Obligation {
+			bf := p.Func("(*Raft).becomeFollower")
+			if bf == nil {
+				return missing(id, "(*Raft).becomeFollower")
+			}
+			var out []Obligation
+			seen := map[string]bool{}
+			for _, root := range p.Roots() {
+				reach := false
+				p.discover(root, func(a *Analysis, f *Frame, in ssa.Instruction) {
+					if f.Fn == bf {
+						reach = true
+					}
+				})
+				if !reach {
+					continue
+				}
+				sp := NewSpace(CmpAtom("partialSnapshot?nil", "r.snapshot", "nil"))
+				a := NewAnalysis(p, sp)
+				a.Hook = func(a *Analysis, f *Frame, in ssa.Instruction, st State) State {
+					if _, ok := in.(*ssa.Return); ok && f.Fn == bf {
+						a.Observe("end of becomeFollower in "+chainKey(f), f, in, st)
+					}
+					return st
+				}
+				a.Run(root, nil)
+				for _, o := range a.SortedObs() {
+					if seen[o.Key] {
+						continue
+					}
+					seen[o.Key] = true
+					out = append(out, evalObs(a, id, []*Observation{o}, func(_ *Observation, pt int) bool { return sp.Val(pt, 0) == EQ }, nil,
+						"the partially received snapshot has been dropped")...)
+				}
+			}
+			if len(out) == 0 {
+				return missing(id, "a call of (*Raft).becomeFollower")
+			}
+			return out
+		},
+	}
+}
